@@ -1,7 +1,7 @@
 (* C14: issuing is total. *)
 From Coq Require Import List String Ascii Bool Arith ZArith Lia.
 Import ListNotations.
-Require Import SDJ.Json SDJ.Wire SDJ.Model2 SDJ.Out SDJ.Split SDJ.Issuer2.
+Require Import SDJ.Json SDJ.Wire SDJ.Model2 SDJ.Out SDJ.Split SDJ.Issuer1 SDJ.Issuer2.
 Local Open Scope string_scope.
 
 (* Issuer::encode never panics, for any claims value, any path strings, any decoy maximum (also <= 0),
@@ -12,14 +12,14 @@ Definition is_obj (j : json) : Prop := match j with JObj _ => True | _ => False 
 Lemma update_at_obj {A} (f : json -> res (json * A)) : (forall j j' a, is_obj j -> f j = Ok (j', a) -> is_obj j') ->
   forall toks j j' a, is_obj j -> update_at toks f j = Ok (j', a) -> is_obj j'.
 Proof.
-  intros Hf toks. destruct toks as [|tok rest]; intros j j' a Ho Hu; cbn in Hu; [eauto|].
+  intros Hf toks. unfold update_at. destruct toks as [|tok rest]; intros j j' a Ho Hu; cbn in Hu; [eauto|].
   destruct j; try contradiction. destruct (obj_get tok kvs); [|discriminate].
-  destruct (update_at rest f j) as [[v' a']|]; cbn in Hu; [|discriminate]. injection Hu as <- _. exact I.
+  destruct (Issuer1.update_at parse_index rest f j) as [[v' a']|]; cbn in Hu; [|discriminate]. injection Hu as <- _. exact I.
 Qed.
 
 Lemma disclose_here_obj E key salt j j' d : is_obj j -> disclose_here E key salt j = Ok (j', d) -> is_obj j'.
 Proof.
-  intros Ho Hd. destruct j; try contradiction. cbn in Hd. destruct (obj_get key kvs); [|discriminate].
+  intros Ho Hd. unfold disclose_here in Hd. destruct j; try contradiction. cbn in Hd. destruct (obj_get key kvs); [|discriminate].
   destruct (_ || _); [discriminate|].
   destruct (obj_get "_sd" (obj_remove key kvs)) as [[]|]; try discriminate; injection Hd as <- _; exact I.
 Qed.
@@ -80,10 +80,10 @@ Qed.
 
 (* unknown member / index out of range / non-numeric index at the last step *)
 Lemma disclose_here_unknown_member E key salt kvs : obj_get key kvs = None -> disclose_here E key salt (JObj kvs) = Err.
-Proof. intros Hn. cbn. rewrite Hn. reflexivity. Qed.
+Proof. intros Hn. unfold disclose_here. cbn. rewrite Hn. reflexivity. Qed.
 Lemma disclose_here_out_of_range E key salt xs i : parse_usize key = Some i -> List.length xs <= i -> disclose_here E key salt (JArr xs) = Err.
-Proof. intros Hp Hl. cbn. rewrite Hp. apply nth_error_None in Hl. rewrite Hl. reflexivity. Qed.
+Proof. intros Hp Hl. unfold disclose_here. cbn. rewrite Hp. apply nth_error_None in Hl. rewrite Hl. reflexivity. Qed.
 Lemma disclose_here_non_numeric E key salt xs : parse_usize key = None -> disclose_here E key salt (JArr xs) = Err.
-Proof. intros Hp. cbn. rewrite Hp. reflexivity. Qed.
+Proof. intros Hp. unfold disclose_here. cbn. rewrite Hp. reflexivity. Qed.
 Lemma disclose_here_scalar E key salt j : (forall xs, j <> JArr xs) -> (forall kvs, j <> JObj kvs) -> disclose_here E key salt j = Err.
-Proof. intros Ha Ho. destruct j; try reflexivity; exfalso; [eapply Ha|eapply Ho]; reflexivity. Qed.
+Proof. intros Ha Ho. unfold disclose_here. destruct j; try reflexivity; exfalso; [eapply Ha|eapply Ho]; reflexivity. Qed.
